@@ -5,11 +5,34 @@
   jackknife remainder) is in PV/Props/C10Alg.lean.
 -/
 import PV.Props.C10Alg
+import PV.Proofs.EinsumLemmas
 
 namespace PV
 
 /-- shape bookkeeping of `_mat_mat_op`: the real embedding [[A, -B], [B, A]] of an n x n complex
     matrix is 2n x 2n and its upper-left / lower-left blocks start at rows 0 and n -/
 theorem c10_embed_shape (n : Nat) : n + n = 2 * n ∧ (2 * n) / 2 = n := by omega
+
+/-! ### `linalg.einsum`: the implicit output made explicit -/
+
+/-- **C10 (einsum, implicit mode).**  Without `->` the output indices handed to numpy are in alphabetical order ... -/
+theorem c10_einsum_implicit_sorted (s : List Char) : (Einsum.implicitOut s).Pairwise (· ≤ ·) :=
+  Einsum.pairwise_sortC _
+
+/-- ... and they are exactly the letters of the subscripts that occur once (numpy's rule for the implicit mode) -/
+theorem c10_einsum_implicit_mem (s : List Char) (x : Char) :
+    x ∈ Einsum.implicitOut s ↔ x ∈ Einsum.letters s ∧ (Einsum.letters s).count x = 1 := by
+  unfold Einsum.implicitOut
+  rw [Einsum.mem_sortC, List.mem_filter]
+  simp
+
+/-- explicit subscripts are handed on unchanged -/
+theorem c10_einsum_explicit_unchanged (s : String) (h : s.toList.contains '-' = true) : Einsum.complete s = s := by
+  unfold Einsum.complete
+  rw [if_pos h]
+
+/-- the forms the correspondence uses: `'jk,ij'` is the product in the other order, `'ji'` the transpose, `'ii'` the trace -/
+example : Einsum.complete "jk,ij" = "jk,ij->ik" ∧ Einsum.complete "ji" = "ji->ij" ∧ Einsum.complete "ii" = "ii->"
+    ∧ Einsum.complete "ij,jk,kl" = "ij,jk,kl->il" ∧ Einsum.complete "ij,j->i" = "ij,j->i" := by decide +kernel
 
 end PV
